@@ -51,9 +51,11 @@ def run(chk, repo):
     chk.doc("R05.9", "guard strictness")
     r1(chk, repo)
     r2(chk, repo)
+    exit_codes(chk, repo)
     helper_sites(chk, repo)
     r6(chk, repo)
     bracket_writes(chk, repo)
+    bracket_yields(chk, repo)
     from ..dsl import Ctx as Dsl
     from . import c01
     chk.doc("R01.5", "sign-extension table (shared with C01): no zero or "
@@ -62,6 +64,46 @@ def run(chk, repo):
     sh.watermark_rules(chk, repo, "R05.7")
     sh.member_symmetry(chk, repo, "R05.8")
     sh.guard_strictness(chk, repo, "R05.9")
+
+
+def exit_codes(chk, repo):
+    """R05.1b: exit(code) defines r0 for every member of every exit-code
+    enumeration (abstract execution of EBPF.exit): a code that is false in
+    a boolean context - value 0 of an IntEnum - must not be mistaken for
+    'no code given'"""
+    sym = E + "EBPF.exit"
+    f = repo.func(sym)
+    chk.analysed(sym)
+    ec = repo.cls(E + "EBPF")
+    enums = []
+    for ci in repo.classes.values():
+        if ci.name.endswith("ExitCode"):
+            enums.append(ci)
+    chk.floor("R05.1", "exit-code enumerations", len(enums), 1)
+    bad = []
+    rows = 0
+    for ci in enums:
+        ev = Evaluator(repo, f._module, ec)
+        for name, mem in ev.enum_members(ci).items():
+            log = []
+            me = Obj(ec, {"append": ("hook", lambda *a: log.append(a))})
+            try:
+                ev.call_function(f, [me, mem], cls=ec)
+            except (Unknown, Raised) as e:
+                raise AnalysisError(f"{sym}: cannot be evaluated for "
+                                    f"{ci.name}.{name}: {e}")
+            rows += 1
+            if me.fields.get("r0", "unset") != mem.value or isinstance(
+                    me.fields.get("r0"), bool):
+                bad.append(f"exit({ci.name}.{name}) leaves r0 "
+                           f"{me.fields.get('r0', 'undefined')!r}")
+            if len(log) != 1 or not isinstance(log[0][0], EnumVal) or \
+                    log[0][0].name != "EXIT":
+                bad.append(f"exit({ci.name}.{name}) emits {log}")
+    chk.ob("R05.1", sym, "exit(code) loads r0 with the code's value, for "
+           "every member of the exit-code enumerations", not bad, f,
+           "; ".join(bad[:3]) or f"{rows} members: an EXIT with r0 never "
+           f"written is rejected by the verifier (R0 !read_ok)")
 
 
 def r1(chk, repo):
@@ -269,6 +311,42 @@ def reg_store_target(t):
             return t.value.attr, n.value
         return t.value.attr, n
     return None
+
+
+def bracket_yields(chk, repo):
+    """the restores of a save_registers bracket are emitted when its `with`
+    ends.  Code that hands control to the caller's block (`yield`) from
+    inside the bracket puts the caller's code - and the jump targets of
+    its Else branches - in front of the restores: a branch taken around
+    them leaves r1-r5 clobbered although the generator believes them
+    live."""
+    n = 0
+    bad = []
+    for m in repo.production_modules():
+        for f in [x for x in ast.walk(m.tree) if isinstance(x, FUNC)]:
+            if f.name == "save_registers":
+                continue
+            for w in walk_no_nested(f):
+                if not isinstance(w, ast.With) or not any(
+                        isinstance(it.context_expr, ast.Call) and isinstance(
+                            it.context_expr.func, ast.Attribute)
+                        and it.context_expr.func.attr == "save_registers"
+                        for it in w.items):
+                    continue
+                n += 1
+                ys = [y for b in w.body for y in walk_no_nested(b)
+                      if isinstance(y, (ast.Yield, ast.YieldFrom))]
+                if not ys and len(w.body) == 1:
+                    pass
+                for y in ys:
+                    bad.append((repo.qualname_of(f), y))
+    chk.floor("R05.6", "save_registers brackets", n, 6)
+    chk.ob("R05.6", "ebpfcat", "no save_registers bracket spans a yield",
+           not bad, bad[0][1] if bad else None,
+           f"{bad[0][0]}: the caller's block runs before the saved "
+           f"registers are restored; a jump to its Else branch skips the "
+           f"restores" if bad else f"{n} brackets close before control "
+           f"goes back to the caller")
 
 
 def bracket_writes(chk, repo):
